@@ -10,9 +10,10 @@ import (
 // methods operate on it. Natively the harness API writes and reads real files instead.
 
 type vfile struct {
-	content Str
-	pos     int
-	path    string
+	content  Str
+	pos      int
+	path     string
+	writable bool
 }
 
 // Virtual clock: time.Now is a 64-bit nanosecond count (a term, so harnesses can advance it by
@@ -73,8 +74,22 @@ func (m *Machine) vfsSet(path Str, content Str) {
 	m.vmtime[path.s] = m.now()
 }
 
+// notExist builds &fs.PathError{Op: "open", Path: path, Err: syscall.ENOENT}, which os.IsNotExist
+// and errors.Is(err, fs.ErrNotExist) recognise (their library code is interpreted).
 func (m *Machine) notExist(fr *frame, path string) iface {
-	return m.errorsNew(fr, "open "+path+": no such file or directory")
+	fsp := m.Prog.ImportedPackage("io/fs")
+	sp := m.Prog.ImportedPackage("syscall")
+	if fsp == nil || sp == nil {
+		return m.errorsNew(fr, "open "+path+": no such file or directory")
+	}
+	pt := fsp.Type("PathError").Type()
+	et := sp.Type("Errno").Type()
+	var pe value = m.zero(pt)
+	st := pe.(structure)
+	st[0] = conc("open")
+	st[1] = conc(path)
+	st[2] = iface{t: et, v: m.T.Const(m.width(et), 2)} // ENOENT
+	return iface{t: types.NewPointer(pt), v: &pe}
 }
 
 func registerVFS(m *Machine) {
@@ -127,6 +142,83 @@ func registerVFS(m *Machine) {
 		}
 		return tuple{m.T.Const(64, uint64(n)), iface{}}
 	}
+	// os.IsNotExist: true exactly for the errors notExist builds (package os is not initialised in
+	// the engine, so the library version cannot read os.ErrNotExist)
+	in["os.IsNotExist"] = func(m *Machine, fr *frame, a []value) value {
+		e := a[0].(iface)
+		if e.t == nil {
+			return m.T.False
+		}
+		if pt, ok := e.t.(*types.Pointer); ok && pt.Elem().String() == "io/fs.PathError" {
+			if p, _ := e.v.(*value); p != nil {
+				if inner, ok := (*p).(structure)[2].(iface); ok && inner.t != nil && inner.t.String() == "syscall.Errno" {
+					if c, ok := inner.v.(*Term); ok && c.IsConst() && c.K == 2 {
+						return m.T.True
+					}
+				}
+			}
+		}
+		return m.T.False
+	}
+	in["os.Remove"] = func(m *Machine, fr *frame, a []value) value {
+		p := a[0].(Str)
+		if _, ok := m.vfsGet(p); !ok {
+			if _, isLink := m.vlinks[p.s]; !isLink {
+				return m.notExist(fr, p.s)
+			}
+		}
+		m.intrinsics["sym:symRemoveFile"](m, fr, a)
+		return iface{}
+	}
+	// os.OpenFile for writing: O_CREATE / O_TRUNC / O_APPEND are honoured; the handle writes at its
+	// position, overwriting and extending the content (what is beyond the written bytes stays)
+	in["os.OpenFile"] = func(m *Machine, fr *frame, a []value) value {
+		p := a[0].(Str)
+		flag := int(m.concretize(a[1].(*Term)))
+		const oCREATE, oTRUNC, oAPPEND = 0x40, 0x200, 0x400
+		c, ok := m.vfsGet(p)
+		if !ok {
+			if flag&oCREATE == 0 {
+				return tuple{(*value)(nil), m.notExist(fr, p.s)}
+			}
+			c = Str{}
+			m.vfsSet(p, c)
+		}
+		if flag&oTRUNC != 0 {
+			c = Str{}
+			m.vfsSet(p, c)
+		}
+		f := &vfile{content: c, path: p.s, writable: flag&3 != 0}
+		if flag&oAPPEND != 0 {
+			f.pos = c.Len()
+		}
+		var v value = opaque{"vfile", f}
+		return tuple{&v, iface{}}
+	}
+	in["(*os.File).Write"] = func(m *Machine, fr *frame, a []value) value {
+		f := (*a[0].(*value)).(opaque).data.(*vfile)
+		if !f.writable {
+			return tuple{m.T.Const(64, 0), m.errorsNew(fr, "write "+f.path+": bad file descriptor")}
+		}
+		data := valuesToBytes(a[1].([]value))
+		cur, _ := m.vfsGet(conc(f.path))
+		bs := append([]*Term(nil), m.strBytes(cur)...)
+		for i, b := range data {
+			if f.pos+i < len(bs) {
+				bs[f.pos+i] = b
+			} else {
+				bs = append(bs, b)
+			}
+		}
+		old := f.pos
+		f.pos += len(data)
+		if m.journaling {
+			m.journal = append(m.journal, undo{f: func() { f.pos = old }})
+		}
+		m.vfsSet(conc(f.path), m.mkStr(bs))
+		return tuple{m.T.Const(64, uint64(len(data))), iface{}}
+	}
+	in["(*os.File).Sync"] = func(m *Machine, fr *frame, a []value) value { return iface{} }
 	in["(*os.File).Close"] = func(m *Machine, fr *frame, a []value) value { return iface{} }
 	in["(*os.File).Stat"] = func(m *Machine, fr *frame, a []value) value {
 		f := (*a[0].(*value)).(opaque).data.(*vfile)
